@@ -14,6 +14,7 @@
    next Serial Query), so wrap-around values need no special case; 0 and 2^32-1 are in the Examples and in
    the correspondence run.                                                                              *)
 From Coq Require Import Permutation.
+From RtrV Require Base.Mem Gen.GeneratedFsm Gen.GeneratedFsm2 Rtr.FsmTie Rtr.FsmTie2 Rtr.ExpiryFrames.
 From RtrV Require Import Base.CSem Gen.Generated Rtr.RtrModel Rtr.RelFrame Rtr.SyncSets Rtr.SyncFrame Rtr.SyncProofs
      Rtr.QueryProofs Rtr.SyncExamples.
 Local Open Scope Z_scope.
@@ -200,6 +201,24 @@ Theorem C05_example_foreign_cache_response :
   end.
 Proof. exact ex_rtr_sync_foreign_cr. Qed.
 
+(* Tie (a): rtr_handle_cache_response_pdu (the session id is adopted when one is requested, compared otherwise; a foreign session
+   is answered with Corrupt Data and ERROR_FATAL) and the whole of rtr_sync (request_session_id cleared and last_update set only
+   after the records were stored) are translated from /repo on every run and proved equal to the model (Rtr/FsmTie2.v); the loop body
+   of rtr_fsm_start, where the reset causes set request_session_id, likewise (C07_fsm_step_translated). *)
+Theorem C05_cache_response_translated : forall fuel len p w, Forall Base.Mem.byte_ok p -> (8 <= zlen p)%Z -> (8 <= len)%Z ->
+  Rtr.FsmTie2.run_eff2 fuel (Gen.GeneratedFsm2.rtr_handle_cache_response_pdu_gen (Rtr.FsmTie2.in_buffer len p) (Some 0%Z) (Rtr.FsmTie.sock_store (sk w))) w =
+  Some (Rtr.FsmTie2.handle_cache_response p w).
+Proof. exact Rtr.FsmTie2.cache_response_tie_world. Qed.
+
+Theorem C05_sync_translated : forall fuel w, Rtr.ExpiryFrames.Tm w -> (0 <= version (sk w) < 2^32)%Z ->
+  Rtr.FsmTie2.run_eff2 fuel (Gen.GeneratedFsm2.rtr_sync_gen fuel (Rtr.FsmTie.sock_store (sk w))) w = Some (rtr_sync fuel w).
+Proof. exact Rtr.FsmTie2.sync_tie_world. Qed.
+
+Theorem C05_fsm_step_translated : forall fuel w, Rtr.FsmTie.c_range w -> st (sk w) <> c_RTR_SHUTDOWN ->
+  Rtr.FsmTie.run_eff fuel (Gen.GeneratedFsm.rtr_fsm_start__iter_gen (Rtr.FsmTie.sock_store (sk w))) w =
+  Some (Rtr.FsmTie.res_const (fsm_step fuel w) 0%Z).
+Proof. intros fuel w HC Hn. apply Rtr.FsmTie.fsm_step_tie_world; [apply Rtr.FsmTie.c_range_step, HC|exact Hn]. Qed.
+
 Print Assumptions C05_serial_query_bytes.
 Print Assumptions C05_reset_query_bytes.
 Print Assumptions C05_query_choice_connecting_serial.
@@ -220,3 +239,6 @@ Print Assumptions C05_reset_cause_expiry.
 Print Assumptions C05_reset_cause_stop.
 Print Assumptions C05_foreign_session_cache_response.
 Print Assumptions C05_foreign_session_eod.
+Print Assumptions C05_cache_response_translated.
+Print Assumptions C05_sync_translated.
+Print Assumptions C05_fsm_step_translated.
